@@ -448,6 +448,8 @@ def verify_obligation(file, fields):
 def run(ck, only_cases=None):
     os.environ["TZ"] = "UTC"
     time.tzset()
+    import warnings
+    warnings.filterwarnings("ignore", message=".*negative serial number.*")   # a test certificate of /repo; irrelevant here
     from spsdk.crypto.symmetric import Counter
     from spsdk.sbfile.sb2 import commands as C
     from spsdk.sbfile.sb2.headers import ImageHeaderV2
@@ -499,7 +501,8 @@ def run(ck, only_cases=None):
     for i, (sp, r, ans) in enumerate(zip(specs, reals, answers)):
         s.note(sp, cls=sp[0] + (":ok" if r[0] == "ok" else ":" + r[0]))
         if ans is not None:
-            s.compare(sp, canon(r), ans, "exported command bytes / constructor error class")
+            # the property names no exception classes: any refusal is "E" on both sides
+            s.compare(sp, _err(canon(r)), _err(ans), "exported command bytes / accepted-or-refused")
         if r[0] == "ok":
             tail = rng.randbytes(rng.choice([0, 0, 16, 5]))
             rom_lines.append("rom_cmd " + hexs(r[1] + tail))
@@ -556,7 +559,7 @@ def run(ck, only_cases=None):
         real = "ok:" + obj_obs(r[1]) if r[0] == "ok" else r[0]
         s.note(b, cls=real[:7] if r[0] != "ok" else "ok:" + str(b[1]))
         if ans is not None:
-            s.compare(b.hex(), real, ans, "parse_command result (header fields, payload, raw_size) / error class")
+            s.compare(b.hex(), _err(real), _err(ans), "parse_command result (header fields, payload, raw_size) / accepted-or-refused")
 
     # ================================================================== 3. sections
     s = ck.stream("sections", "BootSectionV2.export(dek, mac, counter) vs the Lean section model: 1..12 commands, hmac_count 0..5, "
@@ -810,6 +813,10 @@ def same_modulo_padding(case, got, want):
             elif a != b:
                 return False
     return True
+
+
+def _err(line):
+    return "E" if line.startswith("E:") else line
 
 
 def _diff(a, b):
